@@ -35,7 +35,7 @@ Definition v_resp (r : response) : val :=
   end.
 
 Definition d_fs (v : val) : fs :=
-  dlist (fun e => (dstr (nth_val 0 e), (dZ (nth_val 1 e), dZ (nth_val 2 e)))) v.
+  dlist (fun e => (dstr (nth_val 0 e), (dZ (nth_val 1 e), (dZ (nth_val 2 e), dZ (nth_val 3 e))))) v.
 
 Definition d_route (v : val) : route :=
   {| r_prefix := dstr (nth_val 0 v); r_dir := dstr (nth_val 1 v);
@@ -91,7 +91,9 @@ Definition run (v : val) : val :=
   | L [I 6; dir; fb; p] => vbool (may_open (dstr dir) (dopt dstr fb) (dstr p))
   | L [I 7; size; rng; r] =>
     L [vbool (response_ok (dZ size) (d_rng rng) (d_resp r)); v_expected (expect (dZ size) (d_rng rng))]
-  | L [I 8; mtime; ims] => vbool (not_modified (dZ mtime) (dopt dZ ims))
+  | L [I 8; num; den; ims] =>
+    L [vbool (not_modified (dZ num, dZ den) (dopt dZ ims)); I (last_modified (dZ num, dZ den));
+       I (mtime_sec_as_found (dZ num, dZ den))]
   | _ => L [I (-1)]
   end.
 
